@@ -5,6 +5,7 @@
 import SfModel
 import Driver.Util
 import Driver.Codec
+import Driver.Script
 open Sf
 
 def lawOf (s : String) : Option G711.Law :=
@@ -50,4 +51,5 @@ def main (args : List String) : IO UInt32 := do
   match args with
   | "g711" :: rest => g711Cmd rest
   | "codec" :: rest => codecCmd rest
+  | "script" :: rest => scriptCmd rest
   | _ => IO.eprintln "usage: sfmodel <g711|...> ..."; return 2
